@@ -267,7 +267,10 @@ def _run_job(args):
     if time.time() > deadline:
         return {"job": job.get("id", "?"), "skipped": True}
     try:
-        return _H.run_job(job, deadline)
+        t = time.time()
+        r = _H.run_job(job, deadline)
+        r["wall"] = round(time.time() - t, 2)
+        return r
     except core.Abort as a:
         return {"job": job.get("id", "?"), "errors": [f"job aborted {a}"], "crashed": True}
     except Exception as e:  # harness bug: reported, never a verdict
@@ -451,6 +454,9 @@ def main(harness_name, argv=None):
           f"funcs={len(funcs)} solver_s={solver_s:.1f} wall={wall:.1f}s")
     for e in errors[:6]:
         print("  note:", str(e)[:400].replace("\n", " | "))
+    if os.environ.get("VERIF_PROFILE"):
+        for r in sorted([r for r in results if "wall" in r], key=lambda r: -r["wall"])[:12]:
+            print(f"  slow: {r['job']} wall={r['wall']} paths={r['paths']} unexplored={r['unexplored']} solver_s={r['solver_s']:.1f}+{r['ob_solver_s']:.1f}")
     for kid, (k, path) in known_hits.items():
         print(f"KNOWN-FINDING: property={prop} {k['id']}: {k['what']} (replay={path})")
     for c, path in violations:
